@@ -61,13 +61,7 @@ def forced_specs(seed, tier):
                 sp["options"] = {"n_search": 32, "max_fun_evals": 25 if mode == "det" else 55, key: val}
                 jobs.append(("basic_option", sp, {}))
     # (g) every boolean option of the two option files, toggled one at a time ("all option combinations" starts with the single switches)
-    import re, os
-    names = []
-    for fn in ("basic_bads_options.ini", "advanced_bads_options.ini"):
-        for line in open(os.path.join(os.environ.get("VERIF_REPO", "/repo"), "pybads/bads/option_configs", fn)):
-            m = re.match(r"^(\w+)\s*=\s*(True|False)\b", line)
-            if m and m.group(1) not in ("specify_target_noise", "uncertainty_handling", "plot"):
-                names.append((m.group(1), m.group(2) == "True"))
+    names = gen.boolean_options(skip=("specify_target_noise", "uncertainty_handling", "plot"))
     modes = ("det", "decl", "he")
     for j, (name, dflt) in enumerate(names):
         for mode in (modes if tier != "quick" else (modes[j % 3], modes[(j + 1) % 3])):
